@@ -209,35 +209,42 @@ def r201(ctx, rep, f, ev, cg, reach):
     if path not in f.fns:
         rep.missing("R20.1", path)
         return
-    ifs = ifs_of(ev, path, [Sym("cfg"), Sym("stats")])
-    table = [
-        ("cdps", "E9001", r"sym\(stats\.rdhs_seen\)",
-         r"sym\(cast\(sym\(payload\(sym\(call:%scdps\(sym\(cfg\)\)\),Some\)\) as u64\)\)" % re.escape(OPT)),
-        ("triggers_pht", "E9002", r"sym\(stats\.trigger_stats\.pht\)",
-         r"sym\(payload\(sym\(call:%striggers_pht\(sym\(cfg\)\)\),Some\)\)" % re.escape(OPT)),
-    ]
-    for key, code, observed, configured in table:
-        call = "call:%s%s(sym(cfg))" % (OPT, key)
-        some = "symc(isSome(sym(%s)))" % call
-        guards = [o for o in ifs if ckey(o["cond"]) == some]
-        cmps = [o for o in ifs if call in ckey(o["cond"]) and ckey(o["cond"]) != some]
-        ok = len(guards) == 1 and len(cmps) == 1
-        detail = ""
-        if ok:
-            c = cmps[0]
-            ok = unordered_cmp(c["cond"], "Ne", observed, configured) and tuple(c["guard"]) == (some,) and not guards[0]["guard"]
-            detail = "%s under %s" % (ckey(c["cond"]), list(c["guard"]))
-            got = codes_under(f, c["tb"], c["tb"].exprs[c["node"]]["then"])
-            ok = ok and got == {code} and not c["has_else"]
-            detail += " pushes %s" % sorted(got)
-        rep.check(ok, "R20.1", "R20.1|%s|%s" % (key, code),
-                  "%s: one test `observed != configured` under `if let Some`, error %s (%s)" % (key, code, detail), W,
-                  "key %s is not enforced by exactly one `observed != configured` test under `if let Some(%s)` pushing [%s]: guards=%d compares=%s"
-                  % (key, key, code, len(guards), [ckey(o["cond"])[:160] + " under " + str(list(o["guard"]))[:120] + " -> " + str(sorted(codes_under(f, o["tb"], o["tb"].exprs[o["node"]]["then"]))) for o in cmps]))
+    # decided per case — key absent / configured and equal to the observed count / configured and different — with the
+    # configuration accessor and the observed-count accessor replaced by the case's values: an error with the key's code
+    # is pushed, and Err returned, exactly in the third case (the other key is absent meanwhile)
+    from ..thir import Agg as _Agg, Bits as _Bits
+    some_ = lambda x: _Agg("core::option::Option", "Some", {"0": x})
+    none_ = _Agg("core::option::Option", "None", {})
+    table = [("cdps", "E9001", "::rdhs_seen", 32, 64), ("triggers_pht", "E9002", "TriggerStats::pht", 32, 32)]
+    verdicts_ok = True
+    for key, code, observed_fn, wc, wo in table:
+        got = {}
+        for case, cfgv, obs in (("absent", none_, 5), ("equal", some_(_Bits.const(5, wc)), 5), ("different", some_(_Bits.const(5, wc)), 6)):
+            hooks = [(lambda fn_, r_, key=key: (r_ or fn_).endswith("::" + key) and "CustomChecks" in (r_ or fn_), lambda n, a, cfgv=cfgv: cfgv),
+                     (lambda fn_, r_, key=key: any((r_ or fn_).endswith("::" + o_) for o_ in KEYS if o_ != key) and "CustomChecks" in (r_ or fn_), lambda n, a: none_),
+                     (lambda fn_, r_, observed_fn=observed_fn: (r_ or fn_).endswith(observed_fn), lambda n, a, obs=obs, wo=wo: _Bits.const(obs, wo))]
+            ev.call_hooks = hooks
+            ev.watch = lambda c: c.endswith("::push")
+            try:
+                recs_ = [o for o in ev.collect_ifs(path, [Sym("cfg"), Sym("stats")]) if "call" in o and not o.get("closure") and not any(g in ("false", "not true") for g in o["guard"])]
+                und = [g for o in recs_ for g in o["guard"] if g not in ("true", "not false")]
+                codes_ = sorted({c_ for o in recs_ for c_ in re.findall(r"\[(E\d+)\]", " ".join(o["args"]))})
+                ev.strings = True
+                r_ = vkey(ev.call_fn(path, [Sym("cfg"), Sym("stats")]))
+                got[case] = (codes_, "Err" if r_.startswith("Result::Err(") else ("Ok" if r_.startswith("Result::Ok(") else r_[:60]), bool(und))
+            except Unsupported as e:
+                got[case] = ("unevaluable: %s" % e,)
+            finally:
+                ev.call_hooks = []
+                ev.watch = None
+                ev.strings = False
+        want = {"absent": ([], "Ok", False), "equal": ([], "Ok", False), "different": ([code], "Err", False)}
+        verdicts_ok = verdicts_ok and all(len(g_) == 3 and g_[1] == want[c_][1] for c_, g_ in got.items())
+        rep.check(all(got[c_][:1] == want[c_][:1] and (len(got[c_]) == 3 and not got[c_][2]) for c_ in want), "R20.1", "R20.1|%s|%s" % (key, code),
+                  "%s: error %s exactly when the key is configured and the observed count differs" % (key, code), W,
+                  "key %s is not enforced as `configured and observed != configured → [%s]`: (codes pushed, verdict, undecided) per case %s, expected %s" % (key, code, got, want))
     # the function returns Err iff something was pushed
-    last = [o for o in ifs if "is_empty" in ckey(o["cond"])]
-    rep.check(len(last) == 1 and not last[0]["guard"], "R20.1", "R20.1|result|is_empty",
-              "validate_custom_stats returns Err exactly when an error was pushed", W)
+    rep.check(verdicts_ok, "R20.1", "R20.1|result|is_empty", "validate_custom_stats returns Err exactly when an error was pushed", W)
     # the result is consumed: every Err string is recorded as an error (for_each closure or loop alike)
     vpath = "fastpasta::stats::stats_collector::StatsCollector::validate_custom_stats"
     okc = False
